@@ -14,7 +14,7 @@ func init() {
 		Explanation: "Decides that every blocking primitive in the package has an escape that the teardown paths actually trigger: each blocking select has an arm on a channel that a teardown role closes (Session.shutdownCh, Stream.closeNotifyCh, listener.closeCh, ctx.Done()) or on a timer armed in the same function; every bare channel send/receive, WaitGroup.Wait and sleep is classified in a frozen table with its reason and side-condition (closer exists and is once-guarded; counterpart event guaranteed); " +
 			"Session.Close wakes every stream (closes each notify channel under the stream lock) and closes shutdownCh before it posts the teardown; every transition of a stream away from opened closes its notify channel (directly, or through the close routine for the deferred local close); readMore re-checks buffered data before the first wait and after every wake-up and arms/stops the deadline timer; Flush's queue-full retry loop is bounded by a constant. " +
 			"NOT decided: every timing claim (never early, within a bounded time) and lost-notification schedules between entering the wait and the event.",
-		RuleText: "R11.1 census of every select/send/receive/Wait/Sleep instruction of the package, each classified (a) select with escape arm, (b) receive on a channel closed by a teardown role, (c) paired protocol event, (d) listed exception; closers verified; R11.2 ordering in Session.Close; R11.3 per CAS leaving streamOpened; R11.4 per wake-up arm of readMore; R11.5 loop bound of Flush; R11.6 re-arming of one-shot timers that are awaited again in a loop; R11.7 every timer arm belongs to a timer that was armed before the wait.",
+		RuleText: "R11.1 census of every select/send/receive/Wait/Sleep instruction of the package, each classified (a) select with escape arm, (b) receive on a channel closed by a teardown role, (c) paired protocol event, (d) listed exception; closers verified; R11.2 ordering in Session.Close; R11.3 per CAS leaving streamOpened; R11.4 per wake-up arm of readMore; R11.5 loop bound of Flush; R11.6 re-arming of one-shot timers that are awaited again in a loop; R11.7 every timer arm belongs to a timer that was armed before the wait; R11.8 reused timers are drained after a late Stop().",
 		Run:      runC11,
 	})
 }
@@ -26,9 +26,21 @@ var escapeChans = map[string]string{
 	"listener.closeCh":     "(*listener).Close",
 }
 
+func isTimeAfter(v ssa.Value) bool {
+	c, ok := v.(*ssa.Call)
+	if !ok {
+		return false
+	}
+	f := c.Call.StaticCallee()
+	return f != nil && f.String() == "time.After"
+}
+
 func isTimerChan(v ssa.Value, depth int) bool {
 	if depth < 0 {
 		return false
+	}
+	if isTimeAfter(v) {
+		return true
 	}
 	if fa, ok := loadOfField(v); ok {
 		k := fieldKey(fa)
@@ -275,6 +287,7 @@ func runC11(p *P, r *R) {
 	c11FlushBound(p, r)
 	r.count("R11.6", "one-shot timers awaited in loops", timerRearmed(p, r, "R11.6", nil), 1)
 	c11TimersArmed(p, r)
+	c11ReusedTimersDrained(p, r)
 }
 
 func chanNameAddr(p *P, v ssa.Value) string {
@@ -558,7 +571,7 @@ func timerRearmed(p *P, r *R, rule string, only func(f *ssa.Function) bool) int 
 				return
 			}
 			for k, st := range sel.States {
-				if !isTimerField(st.Chan, "Timer.C") {
+				if !isTimerField(st.Chan, "Timer.C") && !isTimeAfter(st.Chan) {
 					if ph, isPhi := st.Chan.(*ssa.Phi); !isPhi || !isTimerChan(ph, 2) {
 						continue
 					}
@@ -626,4 +639,65 @@ func c11TimersArmed(p *P, r *R) {
 		})
 	}
 	r.count("R11.7", "timer arms of blocking selects", n, 5)
+}
+
+// R11.8: a timer that is reused (kept in a struct field and Reset, or taken from / returned to a pool) is
+// drained when Stop() reports that it already fired; otherwise the stale tick makes the next wait that
+// relies on it return a timeout at once (the module's go directive predates the 1.23 timer semantics).
+func c11ReusedTimersDrained(p *P, r *R) {
+	n := 0
+	for _, f := range p.fnList {
+		for _, si := range findInstrs(f, p.mCallD("(*time.Timer).Stop")) {
+			cc := callCommon(si)
+			tm := cc.Args[0]
+			reused := false
+			if fa, ok := loadOfField(tm); ok && fieldKey(fa) != "" {
+				reused = true // kept in a struct field
+			}
+			if ta, ok := tm.(*ssa.TypeAssert); ok {
+				if c, okc := ta.X.(*ssa.Call); okc && p.calleeName(&c.Call) == "(*sync.Pool).Get" {
+					reused = true
+				}
+			}
+			// a captured variable of the enclosing function that is a field load / pooled there
+			if fv, ok := tm.(*ssa.UnOp); ok {
+				if _, isFree := fv.X.(*ssa.FreeVar); isFree {
+					reused = true
+				}
+			}
+			if _, isFree := tm.(*ssa.FreeVar); isFree {
+				reused = true
+			}
+			if !reused {
+				continue
+			}
+			if _, isDefer := si.(*ssa.Defer); isDefer {
+				// `defer timer.Stop()` of a reused timer cannot drain
+				n++
+				r.fail("R11.8", p.fname(f)+": a reused timer is drained when Stop() reports it already fired", p.ipos(si), "deferred Stop() without a drain")
+				continue
+			}
+			n++
+			drained := false
+			allInstrs(f, func(in ssa.Instruction) {
+				sel, ok := in.(*ssa.Select)
+				if !ok || sel.Blocking {
+					return
+				}
+				for _, st := range sel.States {
+					fa, okf := loadOfField(st.Chan)
+					if !okf || fieldKey(fa) != "Timer.C" || !sameExpr(fa.X, tm, 4) {
+						continue
+					}
+					if instrDominates(si, sel) {
+						// unconditional drain, or on the Stop()==false edge
+						drained = true
+					}
+				}
+			})
+			r.ob("R11.8", p.fname(f)+": a reused timer is drained when Stop() reports it already fired", p.ipos(si), drained, true,
+				"a tick left in the channel makes the next deadline wait on this timer end immediately (a timeout reported early)")
+		}
+	}
+	r.count("R11.8", "Stop() calls on reused timers", n, 2)
 }
